@@ -222,6 +222,56 @@ def r_after_reject(n, frags):
     cover("after-reject")
 
 
+def r_threads(apis):
+    """two threads receive on ONE connection at the same time (e.g. an application thread in recv() and another in close(), which
+    reads frames without the read lock): every scheduling decision at a lock operation or a transport read is a solver choice.
+    Each frame of the stream is handed out exactly once, whole, to one of them."""
+    quiet_logging()
+    Proto, Payload, Closed = _exc_classes()
+    import simnet
+    k = simnet.Kernel(step_budget=4000, explore_sched=True)
+    net = simnet.Net(k, [{}])
+    simnet.install(k, net)
+    p1, p2 = sx.sym_bytes("p", 3), sx.sym_bytes("q", 1)
+    stream = server_frame(1, 2, p1) + server_frame(1, 2, p2)
+
+    class YSock(FakeSock):
+        def recv(self, n):
+            k.yield_now()
+            return FakeSock.recv(self, n)
+
+    results, errs = [], []
+    try:
+        ws = new_ws(YSock([stream, "eof"]))
+
+        def call(who, api):
+            try:
+                if api == "recv_frame":
+                    fr = ws.recv_frame()
+                else:
+                    fr = ws.recv_data_frame(True)[1]
+                results.append((who, fr.fin, fr.opcode, fr.data))
+            except (sx.Control, sx.ConcreteFailure, sx.ReplayMismatch):
+                raise
+            except Exception as e:
+                errs.append("%s: %s" % (who, type(e).__name__))
+
+        pa = k.spawn(lambda: call("A", apis[0]), "A")
+        call("B", apis[1])
+        k.block(lambda: pa.done, None)
+    finally:
+        k.shutdown()
+        simnet.uninstall()
+    sx.require(not errs, "concurrent receivers: a receive call failed (%s)" % "; ".join(errs), apis=str(apis))
+    sx.require(len(results) == 2, "both receivers return a frame", got=len(results))
+    if len(results) != 2:
+        return
+    (_, f1, o1, d1), (_, f2, o2, d2) = results
+    sx.require(sx.And(f1 == 1, o1 == 2, f2 == 1, o2 == 2, sx.Or(sx.And(d1 == p1, d2 == p2), sx.And(d1 == p2, d2 == p1))),
+               "two concurrent receivers get the two frames of the stream, each whole and exactly once, under every schedule", apis=str(apis))
+    cover("threads")
+
+
 def r_seq(k, api):
     """k back-to-back valid frames with symbolic FIN/opcode/mask/payload; the receive API must hand them out in
     order with identical fields"""
@@ -343,6 +393,11 @@ def obligations(tier):
         Obligation("R-resume2", r_resume2, [dict(form=f) for f in (16, 64)],
                    bounds="as R-resume with two partial reads (every pair of cut positions over header + first payload bytes) before the timeout",
                    must_cover=["resumed2"], kernel=["frame_buffer.recv_strict", "recv_frame"]),
+        Obligation("R-threads", r_threads, [dict(apis=a) for a in (("recv_frame", "recv_frame"), ("recv_data_frame", "recv_frame"))],
+                   bounds="2 threads, one receive call each on a stream of two binary frames (3 and 1 symbolic bytes); every scheduling decision at a "
+                          "lock acquire/release and before each transport read is a solver choice (all schedules at that granularity)",
+                   outside=["preemption between two bytecodes that are not separated by a lock operation or a transport read"],
+                   must_cover=["threads"], step_budget=400000, kernel=["frame_buffer.recv_frame (frame lock)", "WebSocket.recv_data_frame", "WebSocket.recv_frame"]),
         Obligation("R-reconnect", _u_reconnect, [dict(n=n, lost=l) for n in (1, 2) for l in ("between-fragments", "inside-frame")],
                    bounds="connection lost inside a frame / between fragments, connect() again on the same object, then a text frame of 1..2 arbitrary bytes "
                           "(shared with C06 U-reconnect)", must_cover=["re-accepted"], kernel=["WebSocket.connect", "frame_buffer", "continuous_frame"]),
